@@ -269,6 +269,7 @@ func (s *Store) compact(footer *Footer, partialCompactStart int,
 		}
 	}
 
+	verifAt("store.compact.begin", s)
 	var frefCompact *FileRef
 	var fileCompact File
 	var err error
@@ -304,6 +305,7 @@ func (s *Store) compact(footer *Footer, partialCompactStart int,
 		return err
 	}
 
+	verifAt("store.compact.segments", s)
 	// Prefix restore the footer's partialCompactStart.
 	if partialCompactStart != 0 {
 		compactFooter.spliceFooter(footer, partialCompactStart)
@@ -322,6 +324,7 @@ func (s *Store) compact(footer *Footer, partialCompactStart int,
 		return err
 	}
 
+	verifAt("store.compact.footer", s)
 	err = compactFooter.loadSegments(s.options, frefCompact)
 	if err != nil {
 		if partialCompactStart == 0 {
@@ -340,6 +343,7 @@ func (s *Store) compact(footer *Footer, partialCompactStart int,
 	}
 	s.m.Unlock()
 
+	verifAt("store.compact.swapped", s)
 	s.histograms["CompactUsecs"].Add(
 		uint64(time.Since(startTime).Nanoseconds()/1000), 1)
 
